@@ -144,6 +144,8 @@ inductive Label where
   | lost (h : Nat)
   | fin (h : Nat) (o : Outcome)
   | noop
+  /-- the oldest outstanding failure of backend `h` has expired -/
+  | exp (h : Nat)
   | final
 deriving Repr, DecidableEq
 
@@ -154,9 +156,10 @@ structure Snap where
   inflight : List Nat
 deriving Repr, DecidableEq
 
-/-- how failures expire in the replay: not counted, never within the run, or right away -/
+/-- how failures expire in the replay: not counted, never within the run, right away, or when
+the schedule says so (`delayed`: the event of pseudo-thread `waitMark` waits for the oldest one) -/
 inductive Expiry where
-  | off | never | immediate
+  | off | never | immediate | delayed
 deriving Repr, DecidableEq
 
 def firstAvail (c : Cfg) (s : State) : Option Nat := (List.range c.nHosts).find? (avail c s)
@@ -200,10 +203,24 @@ def advance (c : Cfg) (ex : Expiry) (s : State) (t x : Nat) : State × Label :=
 def snap (c : Cfg) (s : State) (l : Label) : Snap :=
   { label := l, conns := s.conns, fails := s.fails, inflight := (List.range c.nHosts).map (forwardingTo s) }
 
-def replay (c : Cfg) (ex : Expiry) : State → List (Nat × Nat) → List Snap
-  | s, [] => [snap c s .final]
-  | s, (t, x) :: es =>
-    let (s', l) := advance c ex s t x
-    snap c s' l :: replay c ex s' es
+/-- the thread number that stands for "wait until the oldest outstanding failure has expired" -/
+def waitMark : Nat := 1000
+
+/-- `q`: the backends of the outstanding failures, oldest first (only used with `delayed`) -/
+def replay (c : Cfg) (ex : Expiry) : State → List Nat → List (Nat × Nat) → List Snap
+  | s, _, [] => [snap c s .final]
+  | s, q, (t, x) :: es =>
+    if t = waitMark then
+      match q with
+      | h :: q' =>
+        let s' := stepD c s (.timer h)
+        snap c s' (.exp h) :: replay c ex s' q' es
+      | [] => snap c s .noop :: replay c ex s [] es
+    else
+      let r := advance c ex s t x
+      let q' := match r.2 with
+        | .fin h .err => if ex == .delayed then q ++ [h] else q
+        | _ => q
+      snap c r.1 r.2 :: replay c ex r.1 q' es
 
 end Casket.Accounting
